@@ -91,7 +91,7 @@ def record_violation(eng, check_id, cond_fail, kind='check', extra=None):
         return
     m = eng.model()
     rec = {'type': 'violation', 'harness': eng.cur_harness, 'check': check_id, 'kind': kind,
-           'inputs': eng.dump_inputs(m), 'trace': eng.dump_trace(m) + [['chk', check_id, 0]],
+           'inputs': eng.dump_inputs(m), 'trace': eng.dump_trace(m),
            'decisions': eng.decisions[-50:]}
     if extra:
         rec.update(extra)
@@ -100,6 +100,8 @@ def record_violation(eng, check_id, cond_fail, kind='check', extra=None):
 
 @rt('check')
 def _(eng, ci, a):
+    """assertion: one query `pc /\\ not ok`.  A check does not constrain the rest of the path (later checks are
+    decided over all states that reach them, whatever earlier checks said), so one failing check cannot mask another."""
     cid = text_of(a[0])
     okv = a[1]
     eng.check_sites[cid] = eng.check_sites.get(cid, 0) + 1
@@ -107,12 +109,12 @@ def _(eng, ci, a):
         eng.events.append(('chk', cid, 1))
         return UNIT
     if okv is False:
-        record_violation(eng, cid, True)
         eng.events.append(('chk', cid, 0))
-        raise PathEnd('check-failed', cid)
+        if not eng.in_replay():
+            record_violation(eng, cid, True)
+        return UNIT
+    eng.events.append(('chk', cid, okv))
     if eng.in_replay():
-        eng.add(okv)
-        eng.events.append(('chk', cid, 1))
         return UNIT
     bad = z3.Not(okv)
     try:
@@ -121,11 +123,6 @@ def _(eng, ci, a):
         raise Inconclusive('%s [assertion query of check %s]' % (u, cid))
     if failing:
         record_violation(eng, cid, bad)
-        if not eng.check_sat(okv):
-            eng.events.append(('chk', cid, 0))
-            raise PathEnd('check-failed', cid)
-    eng.add(okv)
-    eng.events.append(('chk', cid, 1))
     return UNIT
 
 
@@ -142,21 +139,18 @@ def _(eng, ci, a):
         return UNIT
     okz = okv if is_sym(okv) else z3.BoolVal(bool(okv))
     clz = cls if is_sym(cls) else z3.BoolVal(bool(cls))
+    eng.events.append(('chk', cid, okv if is_sym(okv) else (1 if okv else 0)))
     if eng.in_replay():
-        eng.add(okz)
-        eng.events.append(('chk', cid, 1))
         return UNIT
     bad_out = z3.And(z3.Not(okz), z3.Not(clz))
     bad_in = z3.And(z3.Not(okz), clz)
-    if eng.check_sat(bad_out, 'q_assert'):
-        record_violation(eng, cid, bad_out)
-    if eng.check_sat(bad_in, 'q_assert'):
-        record_violation(eng, cid, bad_in, kind='known', extra={'kf': kf})
-    if not eng.check_sat(okz):
-        eng.events.append(('chk', cid, 0))
-        raise PathEnd('check-failed', cid)
-    eng.add(okz)
-    eng.events.append(('chk', cid, 1))
+    try:
+        if eng.check_sat(bad_out, 'q_assert'):
+            record_violation(eng, cid, bad_out)
+        if eng.check_sat(bad_in, 'q_assert'):
+            record_violation(eng, cid, bad_in, kind='known', extra={'kf': kf})
+    except Inconclusive as u:
+        raise Inconclusive('%s [assertion query of check %s]' % (u, cid))
     return UNIT
 
 
@@ -246,6 +240,8 @@ def _dump_trace(self, m):
                 if v >= (1 << (w - 1)):
                     v -= 1 << w
             out.append(['obs', e[1], kind, v])
+        elif e[0] == 'chk' and is_sym(e[2]):
+            out.append(['chk', e[1], 1 if self.eval_in_model(m, e[2]) else 0])
         else:
             out.append(list(e))
     return out
@@ -338,6 +334,17 @@ def run_one_path(eng, fn, name):
 
 # ----------------------------------------------------------------------------- Model construction intercept
 
+def _language_en(eng):
+    """the `en` Language: `code` is concrete (sheet-name generation matches on it), the tables are opaque"""
+    from .mcore import mkstr
+    ld = eng.td.lookup('language::Language')
+    vals = {'name': mkstr('English'), 'code': mkstr('en'), 'booleans': Opaque('language.booleans'),
+            'errors': Opaque('language.errors'), 'functions': Opaque('language.functions')}
+    if ld is None or sorted(ld.fields) != sorted(vals):
+        raise Unsupported('language::Language has fields this intercept does not know')
+    return Agg([vals[f] for f in ld.fields], ld.path)
+
+
 @rt('model_from_workbook')
 def _(eng, ci, a):
     """`Model::from_workbook(wb, "en")` for a workbook without formulas / defined names / tables (DESIGN 3.3):
@@ -364,7 +371,7 @@ def _(eng, ci, a):
         'parser': Opaque('parser'),
         'cells': MapV(),
         'locale': Ref([Opaque('locale')], 0),
-        'language': Ref([Opaque('language')], 0),
+        'language': Ref([_language_en(eng)], 0),
         'tz': Opaque('tz'),
         'view_id': 0,
         'variable_stack': MapV(),
